@@ -245,6 +245,7 @@ def kinds : List (String × Bool × String) := [
   -- connections, names, options
   ("accept", false, "ACCEPT"), ("maccept", true, "ACCEPT"), ("mrecv", true, "RECV"),
   ("connect", false, "CONNECT"), ("bind", false, "BIND"), ("listen", false, "LISTEN"),
+  ("connectu", false, "CONNECT"), ("bindu", false, "BIND"), ("sendtou", false, "SEND"),
   ("shutdown", false, "SHUTDOWN"), ("sockname", false, "URING_CMD"), ("peername", false, "URING_CMD"),
   ("getsockopt", false, "URING_CMD"), ("setsockopt", false, "URING_CMD"),
   -- file system
